@@ -17,6 +17,9 @@ def run(ck):
     r5_point_domains(ck, w)
     r6_len_minus_one(ck, w)
     r7_chopped_single_point(ck, w)
+    from . import c01
+    c01.golden_rule(ck, w, 'C14.R8', 'For the multi-opening: x1, x2, the commitment of f, x3, one evaluation per point set, x4, pi — in this order; with x4 squeezed before the '
+                    'evaluations are absorbed, altered claimed evaluations are accepted.')
     c10.eval_ops(ck, w, 'C14', 'C14.N1')
     ck.explanation = (
         'Static rules for the multi-opening argument: (R1) multi_open (write→read) = multi_prepare = in-circuit multi_prepare as transcript schedules '
